@@ -194,6 +194,25 @@ INVARIANT Exclusive
             o = core.outcome(utils.xor, d, key)
             ev.append({"op": "xor", "d": L(d), "k": L(key), "r": o[0] if o[0] == "ok" else o[1], "out": L(o[1]) if o[0] == "ok" else []})
             ctx.evaluations += 1
+    # buffers beyond 64 KiB (too large to hand to TLC): xor with keys of several lengths and both NetBIOS alphabets against the
+    # definitions written out in Python - XorRep and the nibble encoding of CodecR are position-wise, so size adds no new case
+    # to the specification, only to the implementation
+    for size in ([65536, 131073] if q else [65535, 65536, 65537, 131073, 262147, 1048577]):
+        d = rng.randbytes(size)
+        for key in (b"\x5a", b"\x01\x02", b"abc", rng.randbytes(4), rng.randbytes(5), rng.randbytes(16), rng.randbytes(251)):
+            o = core.outcome(utils.xor, d, key)
+            ctx.evaluations += 1
+            if o[0] != "ok" or bytes(o[1]) != bytes(b ^ key[i % len(key)] for i, b in enumerate(d)):
+                first = next((i for i, (a, b) in enumerate(zip(bytes(o[1]), d)) if a != b ^ key[i % len(key)]), -1) if o[0] == "ok" else -1
+                viol("xor", "large_buffer", {"size": size, "keylen": len(key), "first_difference_at": first, "got": o[0]})
+            ctx.count_distinct(("xor_large", size, len(key)))
+        for off, nm in ((0x61, "a"), (0x41, "A")):
+            e = core.outcome(utils.netbios_encode, d[:100001], off)
+            want = bytes(x for c in d[:100001] for x in ((c >> 4) + off, (c & 15) + off))
+            back = core.outcome(utils.netbios_decode, want, off)
+            ctx.evaluations += 2
+            if e != ("ok", want) or back != ("ok", d[:100001]):
+                viol("netbios_encode" if e != ("ok", want) else "netbios_decode", "large_buffer", {"size": 100001, "offset": off})
     # documented argument errors of the generator
     for kw in (dict(x64=True, length=5), dict(length=2), dict(x64=True, length=3)):
         o = core.outcome(lambda: utils.random_stager_uri(**kw))
